@@ -79,6 +79,7 @@ func (o exeOutcome) text() string {
 
 func runC11(c *run.Ctx) {
 	defer c11Contexts(c)
+	defer c11KeptSubscription(c)
 	c.Rule = "histories: one document parsed once, then resolved 2-6 times with varying operation name and variable maps; every call is compared (data, error paths, messages) with the same call on a " +
 		"freshly parsed copy, and the executable's printed form (operations and fragments, sorted) must be unchanged after every call. Documents are steered to variables inside literal objects/lists, " +
 		"arguments in non-declaration order, shared fragments, input-object defaults and several operations. Non-trivial = the document uses variables or arguments; distinct by (document, history)"
